@@ -239,7 +239,7 @@ func init() {
 			"in every form (unnamed, named, named like the package, absent) plus 0-8 other imports (named, blank, dot, several blocks, single lines, commented, unsorted, duplicated, look-alike paths) x remaining uses of the package name {none, elsewhere, only inside the rewritten site}. " +
 			"Oracle over the set of (name, path) specs of input and output: unmentioned imports unchanged and nothing unmentioned added; '+' imports present (captured name for a metavariable name); a '-' import absent iff the output no longer refers to its name or a '+' import takes the name over; " +
 			"a matched import that is still referred to is kept. non-trivial = change applied and file has >=1 unmentioned import; distinct = (patch, form of the affected import, block shape hash, remaining-use class).",
-		Assumptions: []string{"'refers to' = a selector on the import's name (explicit name, else last path element)", "don't-care: a context-line import that is no longer referred to may stay or go"},
+		Assumptions: []string{"'refers to' = a selector on the import's name (explicit name, else last path element)", "an import on a context line is present afterwards (it is on the '+' side too), referred to or not"},
 		Cases: func(tier string) int {
 			if tier == "thorough" {
 				return 40000
@@ -508,6 +508,11 @@ func runC11(ctx *core.Ctx, idx int) *core.Result {
 				}
 				if usesName(fout, n) && !out[rs] {
 					fail("used-import-removed", fmt.Sprintf("matched import %s was removed although the output still refers to %s", rs, n))
+					bad = true
+				} else if !out[rs] {
+					// an import on a context line is on the '+' side as much as on the '-' side: the patch requires
+					// it and keeps it (whether the file still uses it cannot be told from its path)
+					fail("context-import-removed", fmt.Sprintf("import %s stands on a context line of the patch but is not in the output", rs))
 					bad = true
 				}
 			}
